@@ -198,7 +198,7 @@ Qed.
 Lemma st_eval_string : forall fuel tmps st c t st', I st -> eval_string p fuel tmps st c = ROk (t, st') -> I st'.
 Proof.
   intros fuel tmps st c t st' H E. unfold eval_string, rbind in E.
-  destruct (do_inl p fuel tmps (set_out st out_empty) c) as [s1|] eqn:E1; [|dis].
+  destruct (do_inl p fuel tmps (set_out st out_string) c) as [s1|] eqn:E1; [|dis].
   inversion E; subst. apply s_out. eapply st_do_inl; [|exact E1]. now apply s_out.
 Qed.
 
